@@ -1,5 +1,5 @@
 SPECIFICATION Spec
 CONSTANTS P = 257  LogLen = 3  Deltas = {1}
-  ShapeSets <- ShapesQuick  Exemptions = {1, 2, 3}  AssertSets <- AssertsQuick  AuxChoices <- AuxQuick
+  ShapeSets <- ShapesQuick  Exemptions = {1, 3, 4}  AssertSets <- AssertsQuick  AuxChoices <- AuxQuick
 INVARIANT Emit ClassificationSound HonestValid
 CHECK_DEADLOCK FALSE
